@@ -15,7 +15,8 @@ LEVEL_NOTE = ("Proof level covers peel and getConnComps only (model theorems are
               "(rational arithmetic) by Lean checkers on sampled inputs.")
 TECHNIQUE = "Lean 4 theorems (own list-based graph theory) + correspondence harness + verified output checkers"
 RULE = ("generated simple graphs (random connected, trees incl. one/two-centre paths, cycles, unicyclic, cores with "
-        "hanging trees/paths, disconnected unions; orthogonally routed graphs on a grid with many crossings and bundles); "
+        "hanging trees/paths, disconnected unions; rooted trees of 5-60 nodes fed directly to Tree::symmetricLayout "
+        "(random, lopsided, uneven caterpillars/spiders, the 14-node witness family, four growth directions); orthogonally routed graphs on a grid with many crossings and bundles); "
         "a case is non-trivial if at least one leaf was peeled / more than one component / at least one crossing node was created")
 TRUSTED_BASE = ["Lean 4.33 kernel", "axioms: propext, Classical.choice, Quot.sound",
                 "harness + hex-float import", "Lean compiler for the driver",
